@@ -76,7 +76,7 @@ RecoverSkip ==
   IF FirstBad = n + 1 THEN {1..n}
   ELSE LET b == FirstBad  s == See(b) IN
        IF s \in {"absent", "cut"} THEN {1..(b - 1)}
-       ELSE IF s = "metaflip" THEN {1..(b - 1), 1..n}
+       ELSE IF s = "metaflip" THEN {1..(b - 1), 1..n, (1..n) \ {b}}   \* does not parse / parses / parses to another size
        ELSE IF s \in {"hdrval", "recval"} THEN {(1..n) \ {b}}   \* the rest is intact (single damage)
        ELSE \* garbage sizes: before the damage for sure; whatever else is produced must be sound
             {S \in SUBSET (1..n) : (1..(b - 1)) \subseteq S /\ b \notin S}
